@@ -61,7 +61,8 @@ CURATED4 = [
         ('t', 'ctx', 'cx', 'ctx'), ('ct', 'ct', 'ctx', 'ctx'),
         ('x', 'ctx', 'ctx', 'ctx'), ('ctx', 'ctx', 'ctx', 'c'),
         ('tx', 'tx', 'cx', 'cx'), ('ctx', 'ctx', 'ctx', 't'),
-        ('ctx', 't', 'c', 'ctx'), ('cx', 'ct', 't', 'x')]]
+        ('ctx', 't', 'c', 'ctx'), ('cx', 'ct', 't', 'x'),
+        ('t', 'ct', 'c', 'ctx'), ('ct', 'c', 'ctx', 't')]]
 
 
 def jobs(tier, seed):
